@@ -98,9 +98,10 @@ def valuation(x, gs, window2, frames, power, log, energy_T=None):
                 a = abs(y)
                 acc += window2[t] * (a * a if power else a)
             out[k, i] = acc
+    fl = pconfig.LOG_FLOOR_VALUE
     if log:
-        out = np.log(np.maximum(out, pconfig.LOG_FLOOR_VALUE))
-    return out
+        return np.log(np.maximum(out, fl)), np.abs(out - fl) <= 1e-6 * fl
+    return out, np.zeros(out.shape, dtype=bool)
 
 
 def near_floor(exp):
@@ -180,8 +181,10 @@ def record_and_validate(run, tier, rng, prop):
                     continue
                 row = table[(c["style"], c["S"], c["M"], c["T"], c["D"], N)]
                 x = nprng.randint(-4, 5, size=N).astype(np.float64) + 0.25
-                exp = valuation(x, gs, w2, row["frames"], opt["use_power"], opt["use_log"],
-                                energy_T=c["T"] if opt["include_energy"] else None)
+                if N and rng.random() < 0.1:
+                    x = x * 0.0 if rng.random() < 0.5 else x * 1e-4  # digital silence / below the log floor
+                exp, borderline = valuation(x, gs, w2, row["frames"], opt["use_power"], opt["use_log"],
+                                            energy_T=c["T"] if opt["include_energy"] else None)
                 if prop == "C01":
                     import c01
                     chunkings = c01.chunkings_for(N, c["M"] + c["S"] - 1, c["S"], rng, ncomp, 3 if tier == "quick" else 8)
@@ -214,7 +217,9 @@ def record_and_validate(run, tier, rng, prop):
                         elif vals.dtype != np.dtype(dt):
                             bad = "result dtype %s for input %s" % (vals.dtype, np.dtype(dt))
                         else:
-                            ok = np.isclose(vals.astype(np.float64), exp, rtol=tol, atol=tol) | near_floor(exp)
+                            ok = np.isclose(vals.astype(np.float64), exp, rtol=tol, atol=tol) | borderline
+                            if dt != np.float64:
+                                ok = ok | near_floor(exp)  # single precision: inputs were rounded, allow the floor to flip
                             if not ok.all():
                                 k_, i_ = np.argwhere(~ok)[0]
                                 bad = "frame %d coeff %d: got %r, definition %r" % (k_, i_, float(vals[k_, i_]), float(exp[k_, i_]))
